@@ -93,11 +93,13 @@ def determinism_sample(prop, base, n=4):
     """same seeds: twice in this interpreter tree and once in a fresh interpreter under another PYTHONHASHSEED"""
     mask = driver.mask_for(prop)
     driver._init_worker()
-    a = [driver.run_one(prop, base, i, "quick", mask, False, True) for i in range(n)]
-    b = [driver.run_one(prop, base, i, "quick", mask, False, True) for i in range(n)]
+    a = [driver.run_one(prop, base, i, "quick", mask, False, True, False) for i in range(n)]
+    b = [driver.run_one(prop, base, i, "quick", mask, False, True, False) for i in range(n)]
     for x, y in zip(a, b):
         if x.get("harness_error") or y.get("harness_error"):
             return False, f"harness error in determinism sample: {x.get('harness_error') or y.get('harness_error')}"
+        if x.get("violation") or y.get("violation"):
+            continue   # a run that exposes a violation is reported as such; a broken SUT may be hash-order dependent
         if x["digest"] != y["digest"]:
             return False, f"run index {x['index']} not reproducible in-process"
     env = dict(os.environ)
@@ -108,20 +110,51 @@ def determinism_sample(prop, base, n=4):
     for line in p.stdout.splitlines():
         try:
             j = json.loads(line)
-            got[j["index"]] = j.get("digest")
+            got[j["index"]] = "VIOLATION" if j.get("violation") else j.get("digest")
         except Exception:
             pass
     for x in a:
+        if x.get("violation") or got.get(x["index"]) == "VIOLATION":
+            continue
         if got.get(x["index"]) != x["digest"]:
             return False, f"run index {x['index']} differs under PYTHONHASHSEED=4242 ({p.stderr[-300:]})"
     return True, f"{n} seeds x (2 in-process + 1 fresh interpreter, other PYTHONHASHSEED): identical digests"
 
 
 def selftest(base, count, verbose=False):
+    """determinism of the simulator on a large sample: every seed is generated+executed
+    (a) sequentially in this process tree, (b) in a 16-worker pool, (c) in a 3-worker pool,
+    (d) in a fresh interpreter under another PYTHONHASHSEED; all four digests must agree."""
     ok_all = True
     for prop in sorted(_props()):
-        ok, msg = determinism_sample(prop, base, count)
-        print(f"selftest {prop}: {'ok' if ok else 'FAIL'} – {msg}")
+        mask = driver.mask_for(prop)
+        driver._init_worker()
+        seq = {}
+        for i in range(count):
+            r = driver.run_one(prop, base, i, "quick", mask, False, True)
+            seq[i] = r.get("digest") or ("ERR " + str(r.get("harness_error"))[:200])
+        bad = []
+        for jobs in (16, 3):
+            res = driver.batch(prop, base, "quick", 3600, jobs, 0, count, raw_every=10 ** 9, digests=True)
+            got = {r["index"]: r.get("digest") for r in res if "index" in r}
+            bad += [(jobs, i) for i in range(count) if got.get(i) != seq[i]]
+        env = dict(os.environ)
+        env["PYTHONHASHSEED"] = "977"
+        p = subprocess.run([sys.executable, "-W", "ignore::SyntaxWarning", os.path.join(VERIF, "run.py"), "digest", prop, "0", str(count),
+                            "--seed", str(base)], capture_output=True, text=True, env=env, timeout=3600)
+        got = {}
+        for line in p.stdout.splitlines():
+            try:
+                j = json.loads(line)
+                got[j["index"]] = j.get("digest")
+            except Exception:
+                pass
+        bad += [("hashseed977", i) for i in range(count) if got.get(i) != seq[i]]
+        errs = [i for i in seq if str(seq[i]).startswith("ERR")]
+        ok = not bad and not errs
+        print(f"selftest {prop}: {'ok' if ok else 'FAIL'} – {count} seeds x (sequential, 16 workers, 3 workers, fresh interpreter PYTHONHASHSEED=977)"
+              + ("" if ok else f" mismatches={bad[:6]} errors={errs[:6]}"))
+        sys.stdout.flush()
         ok_all &= ok
     return 0 if ok_all else 2
 
@@ -185,6 +218,8 @@ def aggregate(spec, results):
     runs = [r for r in results if "nops" in r]
     sigs = set()
     fault = {}
+    hits = {}
+    skipped = {}
     triples = set()
     samples = []
     raw_div = 0
@@ -197,6 +232,12 @@ def aggregate(spec, results):
             sigs.add(hashlib.sha256(repr(spec.signature(meta)).encode()).hexdigest())
         for k, v in sorted(meta.get("fired", {}).items()):
             fault[k] = fault.get(k, 0) + v
+        for k, v in sorted(meta.get("hits", {}).items()):
+            hits[k] = hits.get(k, 0) + v
+        for k, v in sorted(meta.get("skipped", {}).items()):
+            skipped[k] = skipped.get(k, 0) + v
+        if meta.get("mode"):
+            hits["restore-target:" + meta["mode"]] = hits.get("restore-target:" + meta["mode"], 0) + 1
         if meta.get("triple"):
             triples.add(tuple(meta["triple"]))
         if "sample" in r and len(samples) < 3:
@@ -209,7 +250,7 @@ def aggregate(spec, results):
             fault_free_runs += 1
         forks += r.get("forks", 0)
     return {"runs": len(runs), "ops": sum(r["nops"] for r in runs), "distinct_nontrivial": len(sigs),
-            "fault_counts": fault, "triples": len(triples), "samples": samples, "raw_runs": raw_runs,
+            "fault_counts": fault, "hits": hits, "skipped": skipped, "triples": len(triples), "samples": samples, "raw_runs": raw_runs,
             "raw_divergent_runs": raw_div, "fault_free_runs": fault_free_runs, "forks": forks,
             "seeds": [r["seed"] for r in runs[:20]]}
 
@@ -232,7 +273,9 @@ def write_evidence(prop, tier, base, agg, wall, violations, harness_errors, det_
             "runs_per_hour": int(agg["runs"] / max(wall, 1e-9) * 3600),
             "ops_per_hour": int(agg["ops"] / max(wall, 1e-9) * 3600),
             "simulated_time": f"n/a – no clock in the SUT; logical steps (ops executed and compared) = {agg['ops']}",
-            "fault_counts_fired": agg["fault_counts"],
+            "fault_decisions_generated": agg["fault_counts"],
+            "probes_fired": agg["hits"],
+            "ops_dropped": agg["skipped"],
             "fault_free_runs": agg["fault_free_runs"],
             "mandatory_triples_covered": agg["triples"],
             "processes_forked": agg["forks"],
@@ -254,5 +297,7 @@ def write_evidence(prop, tier, base, agg, wall, violations, harness_errors, det_
         "wall_s": round(wall, 2),
         "violations": len(violations),
     }
+    if os.environ.get("PSS_NO_EVIDENCE"):
+        return   # tooling runs against deliberately broken trees must not overwrite the evidence of record
     with open(os.path.join(VERIF, "evidence", f"{prop}.json"), "w") as f:
         json.dump(ev, f, indent=1, sort_keys=True)
